@@ -98,6 +98,12 @@ def check(tier, seed):
         for _ in range(60 if tier == 'quick' else 2500):
             cmd, impl, desc = K.keyvalues_case(rng, sorted(kt['consts'].values()))
             cases.append(Case('cfg-from-keyvalues', cmd, impl, desc, kind='from-keyvalues'))
+        # every published constant denotes the documented key id
+        for name_, id_ in sorted(K.DOCUMENTED_KEYS.items()):
+            got = kt['consts'].get(name_)
+            if got != id_:
+                res.violation(f'published constant UbxKeyId.{name_} is not the documented key id',
+                              {'property': 'C13', 'input': {'constant': name_, 'documented': hex(id_)}, 'implementation_says': hex(got) if got is not None else 'missing'}, f'c13-const|{name_}')
         # published keys + random keys with zero reserved bits
         keys = sorted(kt['consts'].values())
         # neighbourhood of every published key: other size codes, adjacent item/group, reserved bits set
